@@ -335,8 +335,9 @@ def verify(ob, tracer=None):
         elif undecided is not None:
             res["verdict"] = "undecided"
             res["reason"] = undecided
-        elif res["vcs"] == 0 and res["paths"] > 0 and getattr(ob, "tag", None):
-            res["verdict"] = "noclaim"     # no clause of this property on any path (e.g. result is a vec/top)
+        elif res["vcs"] == 0 and (res["paths"] > 0 and getattr(ob, "tag", None) or getattr(ob, "optional", False)):
+            res["verdict"] = "noclaim"     # no clause of this property on any path (e.g. result is a vec/top),
+                                           # or a seeded obligation whose every path was abandoned without a claim
         elif res["vcs"] == 0:
             res["verdict"] = "engine-error"
             res["reason"] = "zero verification conditions generated"
